@@ -111,77 +111,91 @@ func ruleLinkKind(c *Ctx) {
 // ---------------------------------------------------------------------------------------------------------------
 
 func ruleInsertTogether(c *Ctx) {
-	pk, fd := c.P.mustFunc("eth2/forkchoice/proto", "ProtoArray.ProcessBlock")
+	pk, top := c.P.mustFunc("eth2/forkchoice/proto", "ProtoArray.ProcessBlock")
 	info := pk.TypesInfo
-	recv := info.Defs[fd.Recv.List[0].Names[0]]
-	g := cfg.New(fd.Body, func(*ast.CallExpr) bool { return true })
-	writes := func(n ast.Node, field string) bool {
-		as, ok := n.(*ast.AssignStmt)
-		if !ok || len(as.Lhs) != 1 {
-			return false
+	// ProcessBlock and the unexported methods of the array it calls: whichever of them writes blockSlots is judged
+	cands := []*ast.FuncDecl{top}
+	{
+		_, closure := helperClosure(c.P)
+		for _, h := range closure["proto.ProtoArray.ProcessBlock"] {
+			c.P.funcDecls(func(p2 *packages.Package, f2 *ast.FuncDecl) {
+				if p2 == pk && f2.Body != nil && "proto."+funcName(f2) == h && f2.Recv != nil && len(f2.Recv.List) == 1 && len(f2.Recv.List[0].Names) == 1 {
+					cands = append(cands, f2)
+				}
+			})
 		}
-		ix, ok := ast.Unparen(as.Lhs[0]).(*ast.IndexExpr)
-		return ok && isRecvField(info, ix.X, recv, field)
 	}
 	found := false
-	for _, b := range g.Blocks {
-		if !b.Live {
-			continue
+	for _, fd := range cands {
+		recv := info.Defs[fd.Recv.List[0].Names[0]]
+		g := cfg.New(fd.Body, func(*ast.CallExpr) bool { return true })
+		writes := func(n ast.Node, field string) bool {
+			as, ok := n.(*ast.AssignStmt)
+			if !ok || len(as.Lhs) != 1 {
+				return false
+			}
+			ix, ok := ast.Unparen(as.Lhs[0]).(*ast.IndexExpr)
+			return ok && isRecvField(info, ix.X, recv, field)
 		}
-		for i, n := range b.Nodes {
-			if !writes(n, "blockSlots") {
+		for _, b := range g.Blocks {
+			if !b.Live {
 				continue
 			}
-			found = true
-			// every path from here to an exit passes a write to indices; also accept an indices write earlier in the same block
-			done := false
-			for _, m := range b.Nodes[:i] {
-				if writes(m, "indices") {
-					done = true
+			for i, n := range b.Nodes {
+				if !writes(n, "blockSlots") {
+					continue
 				}
-			}
-			for _, m := range b.Nodes[i+1:] {
-				if writes(m, "indices") {
-					done = true
-				}
-			}
-			var leak *cfg.Block
-			if !done {
-				seen := map[*cfg.Block]bool{}
-				var walk func(x *cfg.Block)
-				walk = func(x *cfg.Block) {
-					if seen[x] || leak != nil {
-						return
+				found = true
+				// every path from here to an exit passes a write to indices; also accept an indices write earlier in the same block
+				done := false
+				for _, m := range b.Nodes[:i] {
+					if writes(m, "indices") {
+						done = true
 					}
-					seen[x] = true
-					for _, m := range x.Nodes {
-						if writes(m, "indices") {
+				}
+				for _, m := range b.Nodes[i+1:] {
+					if writes(m, "indices") {
+						done = true
+					}
+				}
+				var leak *cfg.Block
+				if !done {
+					seen := map[*cfg.Block]bool{}
+					var walk func(x *cfg.Block)
+					walk = func(x *cfg.Block) {
+						if seen[x] || leak != nil {
 							return
 						}
+						seen[x] = true
+						for _, m := range x.Nodes {
+							if writes(m, "indices") {
+								return
+							}
+						}
+						if len(x.Succs) == 0 {
+							leak = x
+							return
+						}
+						for _, s := range x.Succs {
+							walk(s)
+						}
 					}
-					if len(x.Succs) == 0 {
-						leak = x
-						return
-					}
-					for _, s := range x.Succs {
+					for _, s := range b.Succs {
 						walk(s)
 					}
+					if len(b.Succs) == 0 {
+						leak = b
+					}
 				}
-				for _, s := range b.Succs {
-					walk(s)
+				if leak != nil {
+					pos := n.Pos()
+					if len(leak.Nodes) > 0 {
+						pos = leak.Nodes[len(leak.Nodes)-1].Pos()
+					}
+					c.bad("ProcessBlock.blockSlots", pos, "ProcessBlock records the root in blockSlots and can then return (here) without creating the node and its indices entry: the refused block's root answers GetSlot/ClosestToSlot as if inserted, and its later re-delivery is taken for a known block")
+				} else {
+					c.ok("ProcessBlock.blockSlots", n.Pos(), "the root is recorded only together with its node and index entry")
 				}
-				if len(b.Succs) == 0 {
-					leak = b
-				}
-			}
-			if leak != nil {
-				pos := n.Pos()
-				if len(leak.Nodes) > 0 {
-					pos = leak.Nodes[len(leak.Nodes)-1].Pos()
-				}
-				c.bad("ProcessBlock.blockSlots", pos, "ProcessBlock records the root in blockSlots and can then return (here) without creating the node and its indices entry: the refused block's root answers GetSlot/ClosestToSlot as if inserted, and its later re-delivery is taken for a known block")
-			} else {
-				c.ok("ProcessBlock.blockSlots", n.Pos(), "the root is recorded only together with its node and index entry")
 			}
 		}
 	}
@@ -403,11 +417,32 @@ func ruleSiblingIndex(c *Ctx) {
 		var names []string
 		top := newInlEnv(info, fd.Body, nil, nil, nil, nil)
 		n := 0
+		inlMaxDepth = 6
+		defer func() { inlMaxDepth = 3 }()
 		walkInlined(c.P, pk, top, 0, map[*ast.BlockStmt]bool{}, &n, func(st inlSite) {
 			if (st.f.Name() != "Get" && st.f.Name() != "Set") || len(st.call.Args) < 1 {
 				return
 			}
 			if _, isSel := ast.Unparen(st.call.Fun).(*ast.SelectorExpr); !isSel {
+				return
+			}
+			// only what the method does to its own receiver, directly or through other methods called on that same
+			// receiver (what package functions do with a state they are handed is theirs to answer for)
+			var recvObj types.Object
+			if fd.Recv != nil && len(fd.Recv.List) == 1 && len(fd.Recv.List[0].Names) == 1 {
+				recvObj = info.Defs[fd.Recv.List[0].Names[0]]
+			}
+			// (the state the access is made on is, through every frame, this method's own receiver)
+			sel := ast.Unparen(st.call.Fun).(*ast.SelectorExpr)
+			root := sel.X
+			for {
+				if in, ok := ast.Unparen(root).(*ast.SelectorExpr); ok {
+					root = in.X
+					continue
+				}
+				break
+			}
+			if recvObj == nil || st.env.objOf(root) != recvObj {
 				return
 			}
 			x, fr := st.env.resolve(st.call.Args[0])
@@ -417,8 +452,17 @@ func ruleSiblingIndex(c *Ctx) {
 				}
 			}
 		})
-		// (the order in which independent fields are read is not part of the agreement)
+		// (neither the order in which independent fields are read nor how often one is read is part of the agreement)
 		sort.Strings(names)
+		{
+			var uniq []string
+			for i, x := range names {
+				if i == 0 || x != names[i-1] {
+					uniq = append(uniq, x)
+				}
+			}
+			names = uniq
+		}
 		name := funcName(fd)
 		if fam[name] == nil {
 			fam[name] = map[string]seq{}
